@@ -1007,7 +1007,13 @@ def _generate_structure_virtual_field_methods(enclosing_type_name, field_ir, ir)
     field_exists = _render_existence_test(field_ir, ir)
     logical_type = _cpp_basic_type_for_expression(field_ir.read_transform, ir)
 
-    if read_value.is_constant and field_exists.is_constant:
+    # The "const" templates hard-code has_x() == true, so they can only be used
+    # for a field that is known to exist, not for one under `if false:`.
+    if (
+        read_value.is_constant
+        and field_exists.is_constant
+        and ir_util.constant_value(field_ir.existence_condition) is True
+    ):
         assert not read_subexpressions.subexprs()
         declaration_template = (
             _TEMPLATES.structure_single_const_virtual_field_method_declarations
